@@ -34,7 +34,7 @@ def beads_file(rng, inst, path, npop=4, per=140, floatdata=False, voltage=None, 
     n = npop * per + 350
     fsc, ssc = blob(rng, n, R)
     cols = [fsc, ssc]
-    centers = np.linspace(150, 850, npop)
+    centers = np.linspace(150, 850, npop) if amp_log else np.linspace(60, 420, npop)
     lab = np.concatenate([rng.integers(0, npop, size=350), np.repeat(np.arange(npop), per)])
     rng.shuffle(lab)
     for j, ch in enumerate(inst['fl']):
